@@ -389,6 +389,21 @@ class Executor(object):
             if isinstance(v, tuple):
                 return S.bv(len(v), 64)
             raise Unsupported('Len of %r' % (v,))
+        if k == 'repeat':
+            v = self.operand(fr, rv[1], st)
+            n = rv[2].strip()
+            m = re.match(r'^(?:const )?(\d+)(?:_usize)?$', n)
+            if not m:
+                c = self.crate.consts.get(n.split('::')[-1])
+                if c is not None and c[1][0] == 'int':
+                    cnt = c[1][1]
+                else:
+                    raise Unsupported('array repeat count %r' % n)
+            else:
+                cnt = int(m.group(1))
+            if cnt > 64:
+                raise Unsupported('array of %d elements' % cnt)
+            return tuple([v] * cnt)
         raise Unsupported('rvalue kind ' + k)
 
     def aggregate(self, fr, path, fields, braces, st):
@@ -538,7 +553,7 @@ class Executor(object):
             st2.mem.pop(('L', fr.fid, l), None)
         return ret, st2, live
 
-    def run_from(self, fn, block, locals_by_name, st, pc=S.TRUE):
+    def run_from(self, fn, block, locals_by_name, st, pc=S.TRUE, prologue=False):
         """start executing `fn` at `block` (e.g. a loop head) with the given values of its named
         variables (debug names; parameters included) and run to the function's return.
         Used for inductive steps over one loop iteration.  Returns (return value, state, live, frame)."""
@@ -547,9 +562,42 @@ class Executor(object):
         self.ncalls += 1
         self.next_fid += 1
         fr = Frame(fn, self.next_fid)
-        for name, v in locals_by_name.items():
+        for name in locals_by_name:
             if name not in fn.debug_names:
                 raise Unsupported('run_from: %s has no variable named %s' % (fn.name, name))
+        if prologue:
+            # locals that are only written BEFORE the loop (closures held in variables, references, constants) keep the
+            # value the function's own prologue gives them; locals written inside the loop stay undefined unless named
+            plocals = set(l for l, _ in fn.params)
+            for name, v in locals_by_name.items():
+                if fn.debug_names[name] in plocals:
+                    st.mem[('L', fr.fid, fn.debug_names[name])] = v
+            before = dict(st.mem)
+            saved = (len(self.panics), len(self.unwinds), len(self.cuts))
+            self.depth += 1
+            stp, lp = self.run(fr, 0, block, st, pc, {})
+            self.depth -= 1
+            del self.panics[saved[0]:], self.unwinds[saved[1]:], self.cuts[saved[2]:]
+            if stp is None:
+                raise Unsupported('run_from: the prologue of %s never reaches bb%d' % (fn.name, block))
+            for k_, v_ in before.items():
+                if stp.mem.get(k_, UNDEF) is not v_ and not (isinstance(k_, tuple) and k_ and k_[0] == 'L' and k_[1] == fr.fid):
+                    raise Unsupported('run_from: the prologue of %s writes to %r' % (fn.name, k_))
+            st = stp
+            body = fn.loops().get(block, set())
+            written = set()
+            for b_ in body:
+                blk = fn.blocks[b_]
+                for stt in blk[0]:
+                    if stt[0] in ('assign', 'setdiscr'):
+                        written.add(stt[1].local)
+                        if stt[0] == 'assign' and stt[2][0] == 'ref' and stt[2][2]:
+                            written.add(stt[2][1].local)
+                if blk[1][0] == 'call':
+                    written.add(blk[1][1].local)
+            for l in written:
+                st.mem.pop(('L', fr.fid, l), None)
+        for name, v in locals_by_name.items():
             st.mem[('L', fr.fid, fn.debug_names[name])] = v
         self.depth += 1
         st2, live = self.run(fr, block, EXIT, st, pc, {})
